@@ -3,79 +3,144 @@
  * -DNN=<ring dimension>  (m = NN/2)   -DAVX=0|1 */
 #ifndef VF_APIMOD_H
 #define VF_APIMOD_H
+#define VF_HAVE_TABLE_BUILDERS
 #include "mod.h"
 #include "fftmod.h"
 
 #ifndef NN
 #define NN 8
 #endif
-#define MM (NN / 2)
-
-void* init_reim_from_znx64_precomp(REIM_FROM_ZNX64_PRECOMP* const res, uint32_t m, uint32_t log2bound);
-void* init_reim_to_znx64_precomp(REIM_TO_ZNX64_PRECOMP* const res, uint32_t m, double divisor, uint32_t log2bound);
+#ifndef MM
+#error "pass -DMM=<NN/2> as a literal (it is token-pasted into table names)"
+#endif
+#define VF_CATN_(a, b) a##b
+#define VF_CATN(a, b) VF_CATN_(a, b)
 
 typedef struct {
   MODULE mod;
-  REIM_FFT_PRECOMP fft;
-  REIM_IFFT_PRECOMP ifft;
-  REIM_FFTVEC_MUL_PRECOMP mul;
-  REIM_FFTVEC_ADDMUL_PRECOMP addmul;
-  REIM_FROM_ZNX64_PRECOMP conv;
-  REIM_TO_ZNX64_PRECOMP toznx;
-  q120_ntt_precomp ntt, intt;
 } vf_fullmod;
 
-static void vf_fullmod_init_fft64(vf_fullmod* f, int avx) {
-  vf_cpu_avx = avx;
-  f->mod.module_type = FFT64;
-  f->mod.nn = NN;
-  f->mod.m = MM;
-  f->fft.function = VFT_FUNC(REIM_FFT, MM);
-  f->fft.m = MM;
-  f->fft.buf_size = 0;
-  f->fft.powomegas = (double*)VFT_OMG(REIM_FFT, MM);
-  f->fft.aligned_buffers = 0;
-  f->ifft.function = VFT_FUNC(REIM_IFFT, MM);
-  f->ifft.m = MM;
-  f->ifft.buf_size = 0;
-  f->ifft.powomegas = (double*)VFT_OMG(REIM_IFFT, MM);
-  f->ifft.aligned_buffers = 0;
-  f->mul.function = VFT_FUNC(REIM_MUL, MM);
-  f->mul.m = MM;
-  f->addmul.function = VFT_FUNC(REIM_ADDMUL, MM);
-  f->addmul.m = MM;
-  init_reim_from_znx64_precomp(&f->conv, MM, 50);          /* as fill_fft64_precomp does */
-  init_reim_to_znx64_precomp(&f->toznx, MM, (double)MM, 63);
-  f->mod.mod.fft64.p_fft = &f->fft;
-  f->mod.mod.fft64.mul_fft = &f->mul;
-  f->mod.mod.fft64.p_conv = &f->conv;
-  f->mod.mod.fft64.p_reim_to_znx = &f->toznx;
-  f->mod.mod.fft64.p_ifft = &f->ifft;
-  f->mod.mod.fft64.p_addmul = &f->addmul;
-  fill_virtual_table(&f->mod);
+/* ---- the redirected table builders: objects from the dumped tables of the working tree (sizes as in the real builders) */
+REIM_FFT_PRECOMP* vf_new_reim_fft_precomp(uint32_t m, uint32_t nb) {
+  (void)nb;
+  VF_ASSERT(m == MM, "fft table requested for the module's m");
+  REIM_FFT_PRECOMP* p = (REIM_FFT_PRECOMP*)malloc(sizeof(REIM_FFT_PRECOMP));
+#ifdef __CPROVER__
+  __CPROVER_assume(p != 0);
+#endif
+  p->function = VFT_FUNC(REIM_FFT, MM);
+  p->m = MM;
+  p->buf_size = 0;
+  p->powomegas = (double*)VFT_OMG(REIM_FFT, MM);
+  p->aligned_buffers = 0;
+  return p;
+}
+REIM_IFFT_PRECOMP* vf_new_reim_ifft_precomp(uint32_t m, uint32_t nb) {
+  (void)nb;
+  VF_ASSERT(m == MM, "ifft table requested for the module's m");
+  REIM_IFFT_PRECOMP* p = (REIM_IFFT_PRECOMP*)malloc(sizeof(REIM_IFFT_PRECOMP));
+#ifdef __CPROVER__
+  __CPROVER_assume(p != 0);
+#endif
+  p->function = VFT_FUNC(REIM_IFFT, MM);
+  p->m = MM;
+  p->buf_size = 0;
+  p->powomegas = (double*)VFT_OMG(REIM_IFFT, MM);
+  p->aligned_buffers = 0;
+  return p;
+}
+static q120_ntt_precomp* vf_mk_ntt(int inverse) {
+  q120_ntt_precomp* p = (q120_ntt_precomp*)malloc(sizeof(q120_ntt_precomp));
+#ifdef __CPROVER__
+  __CPROVER_assume(p != 0);
+#endif
+  p->n = NN;
+  if (!inverse) {
+    p->level_metadata = (q120_ntt_step_precomp*)VF_CATN(VFT_NTT_META_, NN);
+    p->powomega = (uint64_t*)VF_CATN(VFT_NTT_POW_, NN);
+    p->reduc_metadata = VF_CATN(VFT_NTT_REDUC_, NN);
+    p->input_bit_size = VF_CATN(VFT_NTT_INBITS_, NN);
+    p->output_bit_size = VF_CATN(VFT_NTT_OUTBITS_, NN);
+  } else {
+    p->level_metadata = (q120_ntt_step_precomp*)VF_CATN(VFT_INTT_META_, NN);
+    p->powomega = (uint64_t*)VF_CATN(VFT_INTT_POW_, NN);
+    p->reduc_metadata = VF_CATN(VFT_INTT_REDUC_, NN);
+    p->input_bit_size = VF_CATN(VFT_INTT_INBITS_, NN);
+    p->output_bit_size = VF_CATN(VFT_INTT_OUTBITS_, NN);
+  }
+  return p;
+}
+q120_ntt_precomp* vf_q120_new_ntt_bb_precomp(const uint64_t n) {
+  VF_ASSERT(n == NN, "ntt table requested for the module's N");
+  return vf_mk_ntt(0);
+}
+q120_ntt_precomp* vf_q120_new_intt_bb_precomp(const uint64_t n) {
+  VF_ASSERT(n == NN, "intt table requested for the module's N");
+  return vf_mk_ntt(1);
 }
 
-#define VF_CATN_(a, b) a##b
-#define VF_CATN(a, b) VF_CATN_(a, b)
-static void vf_fullmod_init_ntt120(vf_fullmod* f) {
-  vf_cpu_avx = 1; /* the library has NTT120 entry points for AVX2 only */
-  f->mod.module_type = NTT120;
+/* what new_module_info does, minus malloc of the MODULE itself and with the memset replaced by a zero initialiser */
+static void vf_fullmod_init(vf_fullmod* f, MODULE_TYPE mt, int avx) {
+  vf_cpu_avx = avx;
+  /* fill_module starts with memset(module,0): reproduced field by field (a block write over the union makes the symbolic
+   * executor lose the table pointers, DESIGN.md 2.1) */
+  f->mod.mod.fft64.p_fft = 0;
+  f->mod.mod.fft64.mul_fft = 0;
+  f->mod.mod.fft64.p_conv = 0;
+  f->mod.mod.fft64.p_reim_to_znx = 0;
+  f->mod.mod.fft64.p_ifft = 0;
+  f->mod.mod.fft64.p_addmul = 0;
+  {
+    void** fp = (void**)&f->mod.func;
+    for (unsigned i = 0; i < sizeof(f->mod.func) / sizeof(void*); ++i) fp[i] = 0;
+  }
+  f->mod.module_type = mt;
   f->mod.nn = NN;
-  f->mod.m = MM;
-  f->ntt.n = NN;
-  f->ntt.level_metadata = (q120_ntt_step_precomp*)VF_CATN(VFT_NTT_META_, NN);
-  f->ntt.powomega = (uint64_t*)VF_CATN(VFT_NTT_POW_, NN);
-  f->ntt.reduc_metadata = VF_CATN(VFT_NTT_REDUC_, NN);
-  f->ntt.input_bit_size = VF_CATN(VFT_NTT_INBITS_, NN);
-  f->ntt.output_bit_size = VF_CATN(VFT_NTT_OUTBITS_, NN);
-  f->intt.n = NN;
-  f->intt.level_metadata = (q120_ntt_step_precomp*)VF_CATN(VFT_INTT_META_, NN);
-  f->intt.powomega = (uint64_t*)VF_CATN(VFT_INTT_POW_, NN);
-  f->intt.reduc_metadata = VF_CATN(VFT_INTT_REDUC_, NN);
-  f->intt.input_bit_size = VF_CATN(VFT_INTT_INBITS_, NN);
-  f->intt.output_bit_size = VF_CATN(VFT_INTT_OUTBITS_, NN);
-  f->mod.mod.q120.p_ntt = &f->ntt;
-  f->mod.mod.q120.p_intt = &f->intt;
-  fill_virtual_table(&f->mod);
+  f->mod.m = NN >> 1;
+  fill_module_precomp(&f->mod); /* real code */
+  fill_virtual_table(&f->mod);  /* real code */
+}
+static void vf_fullmod_init_fft64(vf_fullmod* f, int avx) { vf_fullmod_init(f, FFT64, avx); }
+static void vf_fullmod_init_ntt120(vf_fullmod* f) { vf_fullmod_init(f, NTT120, 1); /* the library has NTT120 entry points for AVX2 only */ }
+
+/* frame condition helper: word-wise snapshots of the module and of every object it points to */
+typedef struct {
+  uint64_t mod[sizeof(MODULE) / 8];
+  uint64_t obj[6][8];
+  uint64_t ntt[2][sizeof(q120_ntt_precomp) / 8];
+} vf_modsnap;
+static void vf_words(uint64_t* dst, const void* src, unsigned n) {
+  const uint64_t* p = (const uint64_t*)src;
+  for (unsigned i = 0; i < n; ++i) dst[i] = p[i];
+}
+static void vf_words_same(const uint64_t* snap, const void* now, unsigned n) {
+  const uint64_t* p = (const uint64_t*)now;
+  for (unsigned i = 0; i < n; ++i) VF_ASSERT(p[i] == snap[i], "MODULE / precomputed object is immutable (bit-for-bit)");
+}
+#define VF_OBJS(m)                                                                                                                        \
+  {(m)->mod.fft64.p_fft, (m)->mod.fft64.p_ifft, (m)->mod.fft64.mul_fft, (m)->mod.fft64.p_addmul, (m)->mod.fft64.p_conv, (m)->mod.fft64.p_reim_to_znx}
+static const unsigned VF_OBJ_WORDS[6] = {sizeof(REIM_FFT_PRECOMP) / 8, sizeof(REIM_IFFT_PRECOMP) / 8, sizeof(REIM_FFTVEC_MUL_PRECOMP) / 8,
+                                         sizeof(REIM_FFTVEC_ADDMUL_PRECOMP) / 8, sizeof(struct reim_from_znx64_precomp) / 8, sizeof(struct reim_to_znx64_precomp) / 8};
+static void vf_snap(vf_modsnap* s, const MODULE* m) {
+  vf_words(s->mod, m, sizeof(MODULE) / 8);
+  if (m->module_type == FFT64) {
+    const void* objs[6] = VF_OBJS(m);
+    for (unsigned k = 0; k < 6; ++k)
+      if (objs[k]) vf_words(s->obj[k], objs[k], VF_OBJ_WORDS[k]);
+  } else {
+    vf_words(s->ntt[0], m->mod.q120.p_ntt, sizeof(q120_ntt_precomp) / 8);
+    vf_words(s->ntt[1], m->mod.q120.p_intt, sizeof(q120_ntt_precomp) / 8);
+  }
+}
+static void vf_check_frame(const vf_modsnap* s, const MODULE* m) {
+  vf_words_same(s->mod, m, sizeof(MODULE) / 8);
+  if (m->module_type == FFT64) {
+    const void* objs[6] = VF_OBJS(m);
+    for (unsigned k = 0; k < 6; ++k)
+      if (objs[k]) vf_words_same(s->obj[k], objs[k], VF_OBJ_WORDS[k]);
+  } else {
+    vf_words_same(s->ntt[0], m->mod.q120.p_ntt, sizeof(q120_ntt_precomp) / 8);
+    vf_words_same(s->ntt[1], m->mod.q120.p_intt, sizeof(q120_ntt_precomp) / 8);
+  }
 }
 #endif
